@@ -11,7 +11,8 @@ from harness.common import exc_name
 PID = "C16"
 TITLE = "FillRequest processes the flow in consecutive blocks, however it is driven"
 LEAN_MODULES = ["LenaModel.Props.C16"]
-LEAN_SOURCES = ["LenaModel/Model/C16.lean", "LenaModel/Props/C16.lean"]
+LEAN_SOURCES = ["LenaModel/Model/C16.lean", "LenaModel/Lemmas/C16.lean", "LenaModel/Lemmas/C16Run.lean",
+                "LenaModel/Lemmas/C16Acc.lean", "LenaModel/Props/C16.lean"]
 DRIVER = "drivers/C16.lean"
 THEOREMS = [
     "Lena.C16.init_bufsize_pos",
@@ -23,12 +24,19 @@ THEOREMS = [
     "Lena.C16.accounted_once",
     "Lena.C16.buffers_bounded",
     "Lena.C16.buffers_bounded_between",
+    # beyond the planned nine
+    "Lena.C16.init_accepts_iff",
+    "Lena.C16.accounted_once_recorded",
+    "Lena.C16.request_idempotent",
+    "Lena.C16.traceOps_requests",
+    "Lena.C16.traceOps_sizes",
+    "Lena.C16.seq_run_blocks",
 ]
 TRUSTED = [
     "Lean 4.33.0 kernel; axioms limited to propext, Classical.choice, Quot.sound (audited by #print axioms on every run)",
     "hand transcription of FillRequest.__init__/fill/request/_run_fill_compute/_run_run, FillRequestSeq.__init__/request and "
     "the fill/request branch of Split.run into LenaModel/Model/C16.lean, validated by this correspondence check "
-    "(exhaustive over every request schedule of flows up to length 8)",
+    "(thorough tier: exhaustive over every request schedule of flows up to length 8; quick tier: up to length 6 + samples)",
     "itertools.islice / itertools.chain semantics on iterators as transcribed (validated likewise)",
     "JSON line protocol encoders (harness/props/c16.py, drivers/C16.lean)",
 ]
@@ -40,15 +48,19 @@ ASSUMPTIONS = [
     "a mutable wrapped element is a state threaded through fill/request/reset/run (no aliasing with the flow values)",
     "real termination is covered by totality of the model functions plus a per-case watchdog on the real code",
 ]
-RULE = ("exhaustive: FillRequest.__init__ for every subset of {run,fill,request,compute,reset} x reset in {None,True,False} x "
-        "buffer_input,buffer_output in {None,True,False}^2 (quick: {None,True}^2) x yield_on_remainder x bufsize in {-1,0,1,3}; "
+RULE = ("thorough, exhaustive: FillRequest.__init__ for every subset of {run,fill,request,compute,reset} x reset in "
+        "{None,True,False} x buffer_input,buffer_output in {None,True,False}^2 x yield_on_remainder x bufsize in {-1,0,1,3}; "
         "run for wrapped kinds run/map-run/fill-compute/fill-request/fill-request+compute/run+fill-request/FillRequestSeq x "
-        "1-2 results x bufsize 1..5 x buffer mode x reset x yield_on_remainder x flows 0..8; fill/request: EVERY subset of "
-        "request points (before each fill, closing request always) of flows 0..8 for kinds fill-compute/fill-request/"
-        "run+fill-request x bufsize 1..5 x buffer_input/buffer_output x reset x yield_on_remainder (1-result; 2-result and "
-        "state-changing request for flows <= 6 in quick, <= 8 in thorough); Split bufsize in {1..9,1000,None} around a "
-        "FillRequest branch given as element / tuple / FillRequestSeq. thorough adds seeded random schedules for flows "
-        "up to 40 and bufsize up to 9. Non-trivial: at least one result yielded or an exception.")
+        "1-2 results x state-changing request x bufsize 1..5 x buffer mode x reset x yield_on_remainder x flows 0..8; "
+        "fill/request: EVERY subset of request points (before each fill, closing request always) of flows 0..8 for kinds "
+        "fill-compute/fill-request/run+fill-request x bufsize 1..5 x buffer_input/buffer_output x reset x "
+        "yield_on_remainder x 1-2 results x state-changing request; Split bufsize in {1..9,1000,None} around a FillRequest "
+        "branch given as element / tuple / FillRequestSeq, flows 0..8; plus 60000 seeded random schedules for flows 9..40, "
+        "bufsize 1..9. quick (<= 60 s): __init__ with buffer flags in {None,True}^2; run for all flows 0..8 (1-result "
+        "element) and lengths 0,4,7,8 (variants); every subset of request points for flows 0..6 (1-result element) plus "
+        "9000 seeded samples of the rest of the thorough fill/request scope; Split for all flows 0..8 and all three "
+        "forms (1-result, yield_on_remainder off), lengths 0,5,8 as element otherwise. "
+        "Non-trivial: at least one result yielded or an exception.")
 CASE_TIMEOUT = 5
 
 KINDS_FILL = ("fc", "fr", "both")          # kinds that have fill/request on the adapter
@@ -267,7 +279,12 @@ def compare(case, res, replies):
         return None if res == m else f"impl {res} vs model {m}"
     if op == "ops":
         return None if res["t"] == m["t"] else f"impl trace {res['t']} vs model {m['t']}"
-    return None if res["r"] == m["r"] else f"impl {res['r']} vs model {m['r']}"
+    if res["r"] != m["r"]:
+        return f"impl {res['r']} vs model {m['r']}"
+    if op == "run" and m.get("spec", m["r"]) != res["r"]:
+        # the right-hand side of theorem run_blocks, evaluated by the driver
+        return f"impl {res['r']} vs block specification of the model {m['spec']}"
+    return None
 
 
 # ----------------------------------------------------------------------------------------
@@ -420,7 +437,11 @@ def _reset_opts(kind):
 
 
 def gen_cases(ctx):
+    """thorough: the whole scope below, exhaustively, plus seeded long random schedules.
+    quick (<= 60 s): the same generators with the exhaustive scopes cut to flows <= 6 (every request
+    schedule, 1-result element) and seeded samples of the rest of the thorough scope."""
     thorough = ctx.tier == "thorough"
+    rng = ctx.rng
     cases = []
     # --- __init__ ---------------------------------------------------------------------------
     tri = (None, True, False) if thorough else (None, True)
@@ -438,11 +459,13 @@ def gen_cases(ctx):
             for mut in (False, True):
                 if kind == "map" and (k != 1 or mut):
                     continue
+                # quick: every flow length for the plain 1-result element, four lengths for the variants
+                lengths = range(0, 9) if (thorough or (k == 1 and not mut)) else (0, 4, 7, 8)
                 for hr, reset in _reset_opts(kind):
                     for n in range(1, 6):
                         for yor in (False, True):
                             for buf in (("bi", "bo", "none", "both") if yor else ("bi", "bo")):
-                                for L in range(0, 9):
+                                for L in lengths:
                                     c = _base(kind, k, mut, hr, n, buf, reset, yor)
                                     c.update(op="run", n=L)
                                     if kind == "frseq":
@@ -451,20 +474,32 @@ def gen_cases(ctx):
                                     else:
                                         cases.append(c)
     # --- fill/request: every subset of request points --------------------------------------
+    # thorough: flows 0..8, all element variants.  quick: flows 0..6 for the 1-result element; the rest of the
+    # thorough scope (flows 7..8, 2-result / state-changing request) is sampled below.
+    rest = []      # the part of the thorough scope that quick only samples: (kind, k, mut, hr, reset, n, buf, yor, L)
     for kind in KINDS_FILL:
         for k, mut in ((1, False), (2, False), (1, True), (2, True)):
-            maxL = 8 if (thorough or (k == 1 and not mut)) else 6
+            plain = k == 1 and not mut
             for hr, reset in ((True, True), (True, False), (False, False)):
-                if not hr and not (k == 1 and not mut):
+                if not hr and not plain:
                     continue
                 for n in range(1, 6):
                     for buf in ("bi", "bo"):
                         for yor in (False, True):
-                            for L in range(0, maxL + 1):
-                                for mask in range(1 << L):
-                                    c = _base(kind, k, mut, hr, n, buf, reset, yor)
-                                    c.update(op="ops", n=L, mask=mask)
-                                    cases.append(c)
+                            for L in range(0, 9):
+                                if thorough or (plain and L <= 6):
+                                    for mask in range(1 << L):
+                                        c = _base(kind, k, mut, hr, n, buf, reset, yor)
+                                        c.update(op="ops", n=L, mask=mask)
+                                        cases.append(c)
+                                elif L >= 3:
+                                    rest.append((kind, k, mut, hr, reset, n, buf, yor, L))
+    if not thorough:
+        for _ in range(9000):
+            kind, k, mut, hr, reset, n, buf, yor, L = rng.choice(rest)
+            c = _base(kind, k, mut, hr, n, buf, reset, yor)
+            c.update(op="ops", n=L, mask=rng.randrange(1 << L))
+            cases.append(c)
     # --- Split around a FillRequest branch --------------------------------------------------
     for form in ("el", "tuple", "frseq"):
         for kind in ("fr", "fc"):
@@ -475,15 +510,13 @@ def gen_cases(ctx):
                             for yor in (False, True):
                                 for m in list(range(1, 10)) + [1000, None]:
                                     for L in range(0, 9):
-                                        if not thorough and (k == 2 or yor) and L not in (0, 5, 8):
+                                        if not thorough and (k == 2 or yor) and (L not in (0, 5, 8) or form != "el"):
                                             continue
                                         c = _base(kind, k, False, True, n, buf, reset, yor)
                                         c.update(op="split", form=form, m=m, n=L)
                                         cases.append(c)
-    ctx.exhaustive = True
+    ctx.exhaustive = False   # quick samples part of the scope; thorough adds a sampled part
     if thorough:
-        ctx.exhaustive = False   # the random part is sampled
-        rng = ctx.rng
         for _ in range(60000):
             kind = rng.choice(KINDS_FILL)
             hr, reset = rng.choice(((True, True), (True, False), (False, False)))
@@ -561,10 +594,12 @@ def shrink(case):
 LEVEL_TEXT = ("Lean 4 theorems about a transcribed model of FillRequest (__init__, fill, request, the four run loops), "
               "FillRequestSeq and Split's fill/request schedule, for an abstract wrapped element, every block size, every "
               "flow and every history of fill/request calls (no bound): run equals the block specification, any request "
-              "schedule closed by a request yields what run yields, every value is accounted exactly once, buffers are "
-              "empty after request. The model is tied to /repo by a correspondence check that enumerates every subset of "
-              "request points for flows up to length 8 (all flag combinations, bufsize 1..5) and Split bufsizes around a "
-              "FillRequest branch, plus a direct block-by-block Python reference oracle and a watchdog on the real code.")
+              "schedule closed by a request yields what run yields (also as driven by Split, any Split block size), every "
+              "value is accounted exactly once (the filled values are cut into the emitted blocks, the pending values and "
+              "the input buffer), buffers are empty after request and bounded between requests. The model is tied to /repo "
+              "by a correspondence check that enumerates every subset of request points for flows up to length 8 (thorough; "
+              "6 + samples in quick; all flag combinations, bufsize 1..5) and Split bufsizes around a FillRequest branch, "
+              "plus a direct block-by-block Python reference oracle and a watchdog on the real code.")
 LEVEL_NOTE = ("Trusted: Lean kernel (+ propext, Classical.choice, Quot.sound), the hand transcription validated by the "
               "exhaustive-in-scope correspondence run, iterator semantics of islice/chain as transcribed, the JSON protocol. "
               "Real termination is modelled by totality and watched by a per-case timeout.")
